@@ -5,39 +5,16 @@ package main
 
 import (
 	"fmt"
-	"sort"
 
 	"github.com/6tail/lunar-go/calendar"
 )
 
 func init() {
 	register(&Check{
-		ID:     "C11",
-		Rule:   "every civil day in the year set (thorough: all days 1..9998) x 14 moments (13 slot entries + 23:59:59): fixed list of route pairs — hour object vs Lunar.GetTime* accessors (27 pairs), GetTimes()[k] vs NewLunarTime, LunarYear vs Lunar year accessors under convention 1, deprecated aliases vs replacements (29 pairs), default-school accessors vs the explicit school; eight-character attributes collapsed by their defining pillars as selected by the current sect (functional-dependence tables, both sects). non-trivial = states at 23:xx (where the sects differ), on term days, and in the first/last lunar month (year routes)",
-		Assume: []string{"eight-character dependence keys: per-pillar attributes keyed by (day stem, pillar); TaiYuan by month pillar; TaiXi by day pillar; MingGong/ShenGong by (year stem, month branch, hour branch) — each key is a projection of the four pillars, so a violation here is a violation of 'same pillars => same attributes' and vice versa for attributes defined on that projection"},
-		Shards: func(tier string, seed int64) []Shard {
-			if tier == "thorough" {
-				return yearShards(tier, seed, 9998, "")
-			}
-			// quick: a narrower seam set than the other sweeps (each state costs ~0.9 ms here)
-			in := map[int]bool{}
-			for _, r := range [][2]int{{1, 30}, {236, 240}, {1580, 1584}, {1644, 1646}, {1899, 1901}, {1928, 1930}, {1959, 1961}, {2015, 2030}, {9996, 9998}} {
-				for y := r[0]; y <= r[1]; y++ {
-					in[y] = true
-				}
-			}
-			for y := 1; y <= 9998; y++ {
-				if y%97 == int(((seed%97)+97)%97) {
-					in[y] = true
-				}
-			}
-			var ys []int
-			for y := range in {
-				ys = append(ys, y)
-			}
-			sort.Ints(ys)
-			return splitRanges(toRanges(ys), 16, Shard{Tier: tier, Seed: seed})
-		},
+		ID:            "C11",
+		Rule:          "every civil day in the year set (thorough: all days 1..9998) x 14 moments (13 slot entries + 23:59:59): fixed list of route pairs — hour object vs Lunar.GetTime* accessors (27 pairs), GetTimes()[k] vs NewLunarTime, LunarYear vs Lunar year accessors under convention 1, deprecated aliases vs replacements (29 pairs), default-school accessors vs the explicit school; eight-character attributes collapsed by their defining pillars as selected by the current sect (functional-dependence tables, both sects). non-trivial = states at 23:xx (where the sects differ), on term days, and in the first/last lunar month (year routes)",
+		Assume:        []string{"eight-character dependence keys: per-pillar attributes keyed by (day stem, pillar); TaiYuan by month pillar; TaiXi by day pillar; MingGong/ShenGong by (year stem, month branch, hour branch) — each key is a projection of the four pillars, so a violation here is a violation of 'same pillars => same attributes' and vice versa for attributes defined on that projection"},
+		Shards:        narrowShards,
 		Run:           runC11,
 		MinNontrivial: 100,
 	})
